@@ -47,7 +47,7 @@ from typing import Any
 
 __all__ = [
     'Ok', 'Fail', 'Unspecified', 'UNSPEC', 'Unsupported', 'SemanticFail', 'evaluate', 'evaluate_info', 'admissible_outcomes',
-    'same_value', 'has_unspec', 'to_model', 'to_text', 'wellformed', 'names_of', 'POLICIES', 'DEFAULT_POLICY',
+    'same_value', 'has_unspec', 'to_model', 'to_text', 'wellformed', 'names_of', 'POLICIES', 'DEFAULT_POLICY', 'DEVIATIONS',
     'node_count', 'kinds_of', 'rule_names', 'normalize',
 ]
 
@@ -110,15 +110,31 @@ class _UnspecifiedCase(Exception):
     pass
 
 
-# documented-silent aspects that change control flow.  Each value is admissible.
+# documented-silent aspects that change control flow or the shape of the result.  Each value is admissible.
 POLICIES = {
-    # syntax.rst says nothing about an iteration of a closure/join that matches without consuming.
-    # Appendix C: such an iteration ends the repetition.  Whether its value/bindings are kept is open;
-    # for the first iteration of {e}+ "one or more times" arguably counts an empty match.
+    # syntax.rst says nothing about an iteration of a closure/join that matches WITHOUT CONSUMING.
+    # Appendix C: such an iteration ends the repetition.  Open: does it still count (value, bindings)?
+    #   empty_first: the first iteration of {e}          (the first e of {e}+ / s%{e} always counts:
+    #                "one or more times", "e {s ~ e}")
+    #   empty_later: any later iteration; 'fail' = it counts as a failed iteration (after the cut that
+    #                follows a separator this makes the repetition fail)
     'empty_first': ('drop', 'keep'),
-    'empty_later': ('drop', 'keep'),
+    'empty_later': ('drop', 'keep', 'fail'),
+    # "(?: e ) ... do not capture what was parsed": are names / overrides inside e captured?
+    'skipgroup_binds': ('keep', 'drop'),
 }
 DEFAULT_POLICY = {k: v[0] for k, v in POLICIES.items()}
+
+# NOT documented behaviour: emulations of deviations of the real engine.  They never make a case
+# pass; bounded/bC01.py uses them only to NAME the class of a failure that was already found
+# (a failure that becomes an agreement under deviation D belongs to class D).
+DEVIATIONS = (
+    'names-undefined-unless-sequence',  # only sequences / options / optionals pre-define None / []
+    'none-dropped-at-frame-start',      # a None item (valueless rule / iteration) vanishes when it is
+                                        # the first item of its scope
+    'cut-escapes-group',                # ( ... ~ ... ) commits the option around the group
+    'cut-lost-in-later-iteration',      # ~ in iteration >= 2 of a closure / in e after a separator
+)
 
 _NOCUT, _CUT, _MAYBE = 0, 1, 2
 
@@ -138,6 +154,13 @@ def shape(items):
     if len(items) == 1:
         return items[0]
     return list(items)
+
+
+def _strip(items):
+    i = 0
+    while i < len(items) and items[i] is None:
+        i += 1
+    return items[i:] if i else items
 
 
 class _Acc(list):
@@ -213,14 +236,18 @@ def names_of(e):
     return tuple(n for n in single if n not in lst), tuple(lst)
 
 
-def _names_under_lookahead(e, under=False, acc=None):
+def _names_under(e, kinds, under=False, acc=None):
     acc = set() if acc is None else acc
     if under and e[0] in ('named', 'namedlist'):
         acc.add(e[1])
-    u = under or e[0] in ('la', 'nla')
+    u = under or e[0] in kinds
     for c in children(e):
-        _names_under_lookahead(c, u, acc)
+        _names_under(c, kinds, u, acc)
     return acc
+
+
+def _names_under_lookahead(e):
+    return _names_under(e, ('la', 'nla'))
 
 
 def rule_names(desc):
@@ -259,7 +286,7 @@ _UNSET = object()
 class _Evaluator:
     def __init__(self, desc, text, *, whitespace=_UNSET, nameguard=None, namechars='', ignorecase=False,
                  keywords=(), comments=None, eol_comments=None, left_recursion=True, actions=None,
-                 policy=None, group_cut_scope=True):
+                 policy=None, group_cut_scope=True, deviations=()):
         self.rules = {}
         for r in desc:
             name, body = r[0], r[1]
@@ -283,7 +310,11 @@ class _Evaluator:
         self.actions = actions or {}
         self.policy = dict(DEFAULT_POLICY)
         self.policy.update(policy or {})
-        self.group_cut_scope = group_cut_scope
+        self.dev = frozenset(deviations)
+        self.group_cut_scope = group_cut_scope and 'cut-escapes-group' not in self.dev
+        self.dev_nodef = 'names-undefined-unless-sequence' in self.dev
+        self.dev_none = 'none-dropped-at-frame-start' in self.dev
+        self.dev_cutlost = 'cut-lost-in-later-iteration' in self.dev
         self.active = set()  # (rule, pos) being evaluated: re-entry = left recursion
         self.pat_cache = {}
         self.used_policy = set()  # which open aspects were actually exercised
@@ -379,10 +410,12 @@ class _Evaluator:
     def e_cut(self, e, pos):
         return pos, [], [], _CUT
 
-    def _defs(self, e):
+    def _defs(self, e, level=''):
         """names pre-defined (None / []) by the scope unit `e` (an option, a rule body, the body of
         an optional / closure iteration / group): all names syntactically inside, except that a
         choice leaves the definition to the option that parses"""
+        if self.dev_nodef and level in ('rule', 'iteration', 'group'):
+            return None
         while e[0] == 'group':
             e = e[1]
         if e[0] == 'choice':
@@ -419,6 +452,8 @@ class _Evaluator:
                 d = self._defs(o)
                 if d:
                     binds = [d, *binds]
+                if self.dev_none:
+                    items = _strip(items)
                 return p, items, binds, _NOCUT
             if r == _CUT:
                 return _NOCUT
@@ -438,7 +473,7 @@ class _Evaluator:
             # "The effect of ~ is scoped to the nearest enclosing brackets (group, optional, closure)"
             return _NOCUT if self.group_cut_scope else r
         p, items, binds, cut = r
-        d = self._defs(e[1])
+        d = self._defs(e[1], 'group')
         if d:
             binds = [d, *binds]
         return p, items, binds, (_NOCUT if self.group_cut_scope else cut)
@@ -448,6 +483,10 @@ class _Evaluator:
         if type(r) is not tuple:
             return r
         p, _items, binds, cut = r
+        if binds:
+            self.used_policy.add('skipgroup_binds')
+            if self.policy['skipgroup_binds'] == 'drop':
+                binds = []
         return p, [], binds, cut  # "do not capture what was parsed"
 
     def e_opt(self, e, pos):
@@ -467,9 +506,11 @@ class _Evaluator:
         if type(r) is not tuple:
             return r
         p, i, b, c = r
-        d = self._defs(body)
+        d = self._defs(body, 'iteration')
         if d:
             b = [d, *b]
+        if self.dev_none:
+            i = _strip(i)
         return p, shape(i), b, c
 
     def _more(self, body, sep, keepsep, pos, values, binds, first):
@@ -492,11 +533,12 @@ class _Evaluator:
             if failed is None:
                 r = self._body(body, p)
                 if type(r) is not tuple:
-                    failed = _cor(cut, r)
+                    failed = _cor(cut, _NOCUT if (self.dev_cutlost and not first) else r)
                 else:
-                    p, v, b, _c = r
+                    p, v, b, c = r
                     vals.append(v)
                     bs += b
+                    cut = _cor(cut, c)
             if failed is not None:
                 if failed == _CUT:
                     return None
@@ -511,7 +553,11 @@ class _Evaluator:
                 if self.policy[which] == 'keep':
                     values += vals
                     binds += bs
+                elif self.policy[which] == 'fail' and cut == _CUT:
+                    return None
                 return pos
+            if self.dev_none and not first:
+                vals = _strip(vals)
             values += vals
             binds += bs
             pos = p
@@ -676,9 +722,11 @@ class _Evaluator:
                 pass  # a rule contains its cuts whatever they were
             return None
         endpos, items, binds, _cut = r
-        d = self._defs(body)
+        d = self._defs(body, 'rule')
         if d:
             binds = [d, *binds]
+        if self.dev_none:
+            items = _strip(items)
         value = self.rule_value(body, items, binds)
         if 'name' in flags:
             if value is UNSPEC or has_unspec(value):
@@ -721,6 +769,10 @@ class _Evaluator:
             for n in under_la:
                 if n in B:
                     B[n] = UNSPEC  # what a name inside a lookahead binds is not documented
+            if self.policy['skipgroup_binds'] == 'drop':
+                for n in _names_under(body, ('skipgroup',)):
+                    if n in B and (B[n] is None or (isinstance(B[n], _Acc) and not B[n])):
+                        B[n] = UNSPEC  # not captured: present as None / [] or absent
             return {k: _plain(v) for k, v in B.items()}
         return shape(items)
 
